@@ -1,6 +1,7 @@
 package main
 
 import (
+	"os"
 	"go/ast"
 	"fmt"
 	"go/constant"
@@ -31,6 +32,7 @@ type Frame struct {
 	vals    map[ssa.Value]Term
 	locs    map[ssa.Value]*Loc
 	tuples  map[ssa.Value][]Term
+	deadBlk map[int]bool
 	blockEn map[int]string
 	blockSt map[int]*State // state at end of block
 	endEn   map[int]string // en at end of block
@@ -408,8 +410,59 @@ func (g *Gen) encodeBody(f *Frame, en string, st *State) {
 		}
 		f.blockSt[b.Index] = f.st
 		f.endEn[b.Index] = f.en
+		if reachCanaries && f.prefix == "" {
+			g.reachCanary(f, ci, b)
+		}
 	}
 }
+
+// reachCanary (GVC_REACH=1): block-level vacuity canaries. The start of every block, and the end of every returning
+// block, must not be provably unreachable under the assumptions made so far - a provable one is dead code or a
+// contradiction between assumed contracts and the encoding. Blocks behind a call that never returns (a contract with
+// "ensures false") or a panic are dead by design and skipped.
+func (g *Gen) reachCanary(f *Frame, ci *cfgInfo, b *ssa.BasicBlock) {
+	if f.deadBlk == nil {
+		f.deadBlk = map[int]bool{}
+	}
+	noRet := false
+	for _, ins := range b.Instrs {
+		switch x := ins.(type) {
+		case *ssa.Panic:
+			noRet = true
+		case *ssa.Call:
+			if callee := x.Call.StaticCallee(); callee != nil {
+				if c := g.contracts[funcKey(callee)]; c != nil && neverReturns(c) {
+					noRet = true
+				}
+			}
+		}
+	}
+	allDead := b.Index != 0
+	for _, p := range b.Preds {
+		if ci.back[[2]int{p.Index, b.Index}] {
+			continue
+		}
+		if !f.deadBlk[p.Index] {
+			allDead = false
+		}
+	}
+	f.deadBlk[b.Index] = noRet || allDead
+	pos := f.fn.Pos()
+	for _, ins := range b.Instrs {
+		if ins.Pos().IsValid() {
+			pos = ins.Pos()
+			break
+		}
+	}
+	if !allDead {
+		g.obligeX(fmt.Sprintf("reach.b%d", b.Index), "canary", "true", not(f.blockEn[b.Index]), "block "+fmt.Sprint(b.Index)+" ("+b.Comment+") can be entered (must NOT be provable)", pos, false)
+	}
+	if _, isRet := b.Instrs[len(b.Instrs)-1].(*ssa.Return); isRet && !f.deadBlk[b.Index] {
+		g.obligeX(fmt.Sprintf("reach.ret%d", b.Index), "canary", "true", not(f.endEn[b.Index]), "the return of block "+fmt.Sprint(b.Index)+" can be reached (must NOT be provable)", pos, false)
+	}
+}
+
+var reachCanaries = os.Getenv("GVC_REACH") != ""
 
 func (g *Gen) encodePhi(f *Frame, phi *ssa.Phi, preds []*ssa.BasicBlock, ens []string) {
 	// map pred block -> edge index in phi.Edges (phi.Edges is parallel to block.Preds)
